@@ -744,6 +744,14 @@ impl<'a> Machine<'a> {
     }
 
     // ---- main loop -----------------------------------------------------------------------------
+    /// all `events` are already in the external queue when the session starts
+    pub fn start_prequeued(&mut self, events: &[String]) {
+        for e in events {
+            self.xq.push_back(e.clone());
+        }
+        self.start();
+    }
+
     pub fn start(&mut self) {
         let script = self.f.script.clone();
         self.exec_block(&script);
@@ -772,7 +780,14 @@ impl<'a> Machine<'a> {
 
     /// complete macrosteps until the external queue is empty (or the machine stops)
     pub fn run_to_idle(&mut self) {
+        let mut macrosteps = 0;
         loop {
+            macrosteps += 1;
+            if macrosteps > 200 || self.lines.len() > 20000 {
+                // self-sustaining external events (a transition on x that sends x again)
+                self.diverged = true;
+                return;
+            }
             // finish the macrostep
             let mut steps = 0;
             while self.running {
